@@ -398,6 +398,20 @@ class Gen:
             if not any(cand == o or cand.startswith(o + '/') or
                        o.startswith(cand + '/') for o in O):
                 O.append(cand)
+        family = None
+        if not getattr(self, 'cache_dir_mode', None) and \
+                rng.random() < self.p.get('p_chain_family', 0.35):
+            # all levels work in sibling directories below one common
+            # directory (reference counts of shared ancestors: a failing
+            # level must release exactly what it reserved)
+            family = rng.choice(NAMES)
+            self.families = getattr(self, 'families', []) + [family]
+            avoid = getattr(self, 'cache_dir_mode', None) or ()
+            subs_ = ['a', 'b', 'c', 'd', 'e', 'f']
+            rng.shuffle(subs_)
+            O = ['%s/%s/%s' % (family, d, rng.choice(NAMES))
+                 for d in subs_[:depth + 2]]
+            O = [o for o in O if o not in avoid]
         paths = list(O)
         rng.shuffle(paths)
         funcs = {}
@@ -420,6 +434,9 @@ class Gen:
                              rng.choice(['METADATA', 'HASH']), True])
             for _ in range(rng.randint(0, 2)):
                 body.append(self.gen_query(U))
+            if family is not None and rng.random() < 0.6:
+                body.append(['q', rng.choice(['is_dir', 'exists', 'list_dir',
+                                              'walk']), family])
             mode = rng.choice(['ok', 'ok', 'ok', 'raise_after',
                                'raise_after', 'raise_before', 'nowrite',
                                'unlink'] if kind == 'file' else
@@ -451,6 +468,9 @@ class Gen:
         root.append(call)
         for _ in range(rng.randint(0, 3)):
             root.append(self.gen_query(U))
+        if family is not None:
+            root.append(['q', rng.choice(['is_dir', 'list_dir', 'walk']),
+                         family])
         files = [f for f in funcs if funcs[f]['kind'] == 'file']
         subs = [f for f in funcs if funcs[f]['kind'] == 'sub']
         return funcs, root, {'O': O, 'files': files, 'subs': subs}, idx
@@ -696,6 +716,19 @@ class Gen:
             'roots': roots,
             'steps': self.gen_steps(funcs, roots, groups, U),
         }
+        fams = getattr(self, 'families', [])
+        if fams and rng.random() < 0.5:
+            # the common directory of a chain family exists before the first
+            # build (it holds a foreign file) and is removed, with everything
+            # in it, before a later build
+            fam = rng.choice(fams)
+            sc['init'].append(['write', fam + '/ff', 'foreign-in-family'])
+            builds = [i for i, st in enumerate(sc['steps'])
+                      if st['op'] == 'build']
+            if len(builds) >= 2 and rng.random() < 0.7:
+                at = rng.choice(builds[1:])
+                sc['steps'].insert(at, {'op': 'mutate',
+                                        'muts': [['rm', fam]]})
         return sc
 
 
@@ -910,6 +943,14 @@ def gen_race(seed, params=None):
     tail = [['q', rng.choice(['is_file', 'read_text', 'exists', 'get_size']),
              'x1', 'METADATA'] for _ in range(rng.randint(1, 3))]
     head = [['q', 'is_file', 'x1']] if rng.random() < 0.4 else []
+    follow = []
+    if rng.random() < 0.5:
+        # P has another child, which the P-thread calls again after P
+        # returned or was refused
+        funcs['Q'+'c'] = {'kind': 'sub', 'name': 'nQc', 'variants': [
+            [['q', 'read_text', 'x2', 'METADATA']]]}
+        head = head + [['sb', 'Qc', [], {}, True]]
+        follow = [['sb', 'Qc', [], {}, True]]
     funcs['P'] = {'kind': 'sub', 'name': 'nP',
                   'variants': [head + [list(callx)] + tail]}
     top = ['sb', 'P', [], {}, True]
@@ -919,7 +960,12 @@ def gen_race(seed, params=None):
         top = ['sb', 'Q', [], {}, True]
     funcs['Fok'] = {'kind': 'file', 'name': 'nFok', 'variants': [
         [['q', 'read_text', 'x2', 'METADATA'], ['w', 'once']]]}
-    bodies = [[list(top)], [list(callx)]]
+    direct = list(callx)
+    if is_file and rng.random() < 0.35:
+        # the same output path with other arguments: still the same key,
+        # but the direct call cannot be served from the record
+        direct[3] = [2, 'other']
+    bodies = [[list(top)] + follow, [direct]]
     if rng.random() < P['p_extra']:
         bodies.append([['bf', 'other', 'Fok', [], {}, 'METADATA', True],
                        ['q', 'is_file', 'x0']])
@@ -930,7 +976,8 @@ def gen_race(seed, params=None):
         bodies[1] = [['sb', 'R', [], {}, True]]
     rng.shuffle(bodies)
     nt = len(bodies)
-    roots = [[list(top)], [['spawn', bodies]]]
+    roots = [[list(top)], [['spawn', bodies]],
+             [['spawn', bodies], ['raise', 'UserError']]]
     steps = [{'op': 'freebuild', 'root': 0, 'versions': {}}]
 
     def maybe_mutate():
@@ -939,8 +986,14 @@ def gen_race(seed, params=None):
                 ['write', rng.choice(['x0', 'x1', 'x2']),
                  'changed%d' % len(steps)]]})
     maybe_mutate()
-    steps.append({'op': 'freebuild', 'root': 1, 'versions': {},
-                  'sched': gen_sched(rng, nt, P['p_line'])})
+    if rng.random() < P.get('p_rollback', 0.35):
+        # the racing build fails after the threads were joined: rollback
+        steps.append({'op': 'freebuild', 'root': 2, 'versions': {},
+                      'expect_fail': True,
+                      'sched': gen_sched(rng, nt, P['p_line'])})
+    else:
+        steps.append({'op': 'freebuild', 'root': 1, 'versions': {},
+                      'sched': gen_sched(rng, nt, P['p_line'])})
     steps.append({'op': 'freebuild', 'root': rng.choice([0, 1]),
                   'versions': {}})
     if rng.random() < P['p_two_races']:
@@ -1176,6 +1229,23 @@ def gen_threads(seed, params=None):
     post = [['probe', sorted(set(
         [''] + outputs + [a for o in outputs for a in ancestors(o)]))]]
     r = rng.random()
+    if r >= P['p_in_sub'] + P['p_in_file'] and spawn[1] is bodies and nt > 1:
+        # root-level threads (nothing of the root is ever served from a
+        # record): a thread looks at directories in which other threads build
+        # failing targets.  The answers depend on the schedule and are not
+        # compared; what the view says after the threads were joined is.
+        for i, body in enumerate(list(bodies)):
+            for st in list(body):
+                if st[0] == 'bf' and st[2] in ('Fbad', 'Fnone') and \
+                        '/' in st[1] and rng.random() < 0.6:
+                    j = rng.choice([k for k in range(nt) if k != i])
+                    d = st[1].rsplit('/', 1)[0]
+                    for _ in range(rng.randint(1, 3)):
+                        bodies[j].insert(
+                            rng.randint(0, len(bodies[j])),
+                            ['qx', rng.choice(['is_dir', 'exists', 'list_dir',
+                                               'walk']),
+                             rng.choice([d] + ancestors(d))])
     if r < P['p_in_sub']:
         funcs['ST'] = {'kind': 'sub', 'name': 'nST', 'variants': [[spawn]]}
         root = [['sb', 'ST', [], {}, True]] + post
